@@ -17,7 +17,8 @@ def plan(tier):
                 "constructors) used for 2-5 observation sequences, each decoded by viterbi, forward and backward",
         "bounds": {"mc": "S=2, M=2, Den=2, T<=3, all sub-stochastic transition rows (quick: reduced emission/"
                          "initial/end families; thorough: all emission/initial rows, two end vectors + none, plus S=3,M=1 "
-                         "stochastic)",
+                         "stochastic); (min,+) exponent Viterbi machine: S=2, M=1, T<=3, exponents {zero,0,1} (thorough "
+                         "{zero,0,1,3}), with/without end vector",
                    "impl": "S<=4, M<=3, Den in {2,3,4,5,10}, T<=4 (T<=14 for small Den), Den^(2T+1) <= 2^30, "
                            "S^T <= 4096 (quick) / 16384 (thorough); power-of-two class: exponents 0..300 or zero, "
                            "S<=4, T<=6, S^T <= 256, joint log-probabilities from 0 down to about -2700 nats"},
@@ -44,7 +45,10 @@ MANIFEST = {
             "distribution) and all observation sequences up to length 3 for the three DP machines shaped like the "
             "code, and every recorded result of the real code on random/structured models (S<=4, T<=14) must be an "
             "arg-max path with exactly the maximal probability (viterbi) resp. lie within 0.5 % of the exact path "
-            "sum, not below the Viterbi maximum, and be exactly zero iff the observation is impossible",
+            "sum, not below the Viterbi maximum, and be exactly zero iff the observation is impossible; a second "
+            "model class with power-of-two parameters (exponent arithmetic, still exact integers) carries the same "
+            "demands down to joint log-probabilities of about -2700 nats, on both sides of the -500 nats underflow "
+            "point of the fast exponential",
     "note": "bounded: MC over S<=3, Den=2, T<=3; implementation side Den^(2T+1) <= 2^30; floats enter TLC only through "
             "the harness's fixed-point projection (trusted); tolerance parts are decided at 0.5 %, not tighter",
     "ref": "sec. 5 C14",
